@@ -49,7 +49,10 @@ class G:
         return ''
 
     def eol(self):
-        return self.inline() + self.nl
+        tail = self.inline()
+        if not tail and self.maybe(0.12):
+            tail = self.pick([' ', '   ', '\t', '  '])        # blanks in front of the line end
+        return tail + self.nl
 
     def block_comment(self, ind: str, n=None):
         n = n or self.r.choice([1, 1, 2, 3])
